@@ -88,13 +88,38 @@ rule "S" no-loop { when T0.v <= 5 then log("s"); }"#,
             action_free: true,
             types: vec!["T0"],
         },
+        // the facts of this rule set hold v as a string (TEXT_SETS_FROM): value 0 is "gold", 5 is "  gold", 2 is "gold "
+        // — a string literal is compared as written, blanks included
+        RuleSet {
+            name: "string_literal_with_blanks",
+            grl: r#"rule "T" no-loop { when T0.v == "  gold" then log("t"); }
+rule "U" no-loop { when T0.v == "gold" then log("u"); }"#,
+            rules: vec![r("T", "T0", "==", 5), r("U", "T0", "==", 0)],
+            action_free: true,
+            types: vec!["T0"],
+        },
     ]
 }
 
 const FLOAT_SETS_FROM: usize = 6;
+const TEXT_SETS_FROM: usize = 7;
+
+fn text_of(v: i64) -> &'static str {
+    match v {
+        0 => "gold",
+        5 => "  gold",
+        _ => "gold ",
+    }
+}
 
 fn num(v: &FactValue) -> Option<i64> {
     match v {
+        FactValue::String(s) => match s.as_str() {
+            "gold" => Some(0),
+            "  gold" => Some(5),
+            "gold " => Some(2),
+            _ => None,
+        },
         FactValue::Float(f) if f.fract() == 0.0 => Some(*f as i64),
         other => other.as_integer(),
     }
@@ -150,6 +175,7 @@ pub struct Sys {
     reset_seen: bool,
     update_seen: bool,
     float_facts: bool,
+    text_facts: bool,
     seq: u64,
     last_fire_seq: u64,
 }
@@ -183,11 +209,13 @@ impl Sys {
             });
             eng.add_rule(rr, deps);
         }
-        Sys { rs, eng, rec, specs: set.rules, action_free: set.action_free, types: set.types, values: values.to_vec(), max_facts, handles: vec![], facts: vec![], fired_since_reset: BTreeSet::new(), reset_seen: false, update_seen: false, float_facts: rs >= FLOAT_SETS_FROM, seq: 0, last_fire_seq: 0 }
+        Sys { rs, eng, rec, specs: set.rules, action_free: set.action_free, types: set.types, values: values.to_vec(), max_facts, handles: vec![], facts: vec![], fired_since_reset: BTreeSet::new(), reset_seen: false, update_seen: false, float_facts: rs == FLOAT_SETS_FROM, text_facts: rs >= TEXT_SETS_FROM, seq: 0, last_fire_seq: 0 }
     }
     fn data(&self, v: i64) -> TypedFacts {
         let mut t = TypedFacts::new();
-        if self.float_facts {
+        if self.text_facts {
+            t.set("v", FactValue::String(text_of(v).to_string()));
+        } else if self.float_facts {
             t.set("v", FactValue::Float(v as f64));
         } else {
             t.set("v", v);
